@@ -762,6 +762,7 @@ func prepass(path string, fd *ast.FuncDecl) *ast.FuncDecl {
 		goLiteralParams(fd)
 		propagateLenCap(fd)
 		normaliseIndexLoops(fd)
+		propagateBlockCopies(fd)
 		inlineGuardClosures(fd)
 		inlineOnceStartedClosures(fd)
 		normaliseCountedRecv(fd)
@@ -1780,7 +1781,15 @@ func inlineStmtCalls(path string, fd *ast.FuncDecl) {
 				}
 				var body []ast.Stmt
 				if call != nil {
-					body = inlineBody(path, fd, call, kind, lhs, lastOfFunc && k == len(list)-1, callerTP)
+					var pre []ast.Stmt
+					pre, body = inlineBody2(path, fd, call, kind, lhs, lastOfFunc && k == len(list)-1, callerTP)
+					if body != nil {
+						if kind == "go" || kind == "defer" {
+							out = append(out, pre...) // arguments are evaluated by the go / defer statement itself
+						} else {
+							body = append(pre, body...)
+						}
+					}
 				}
 				if body == nil {
 					walk(st)
@@ -1819,6 +1828,16 @@ func inlineStmtCalls(path string, fd *ast.FuncDecl) {
 }
 
 func inlineBody(path string, caller *ast.FuncDecl, call *ast.CallExpr, kind string, lhs []string, isLast bool, callerTP map[string]bool) []ast.Stmt {
+	pre, body := inlineBody2(path, caller, call, kind, lhs, isLast, callerTP)
+	if body == nil {
+		return nil
+	}
+	return append(pre, body...)
+}
+
+// pre: the bindings of expression arguments, evaluated where the call stands (for `go h(e)` that is the go statement, not
+// the new goroutine); body: the rest
+func inlineBody2(path string, caller *ast.FuncDecl, call *ast.CallExpr, kind string, lhs []string, isLast bool, callerTP map[string]bool) ([]ast.Stmt, []ast.Stmt) {
 	var h *ast.Ident
 	var targs []ast.Expr
 	switch f := call.Fun.(type) {
@@ -1832,7 +1851,7 @@ func inlineBody(path string, caller *ast.FuncDecl, call *ast.CallExpr, kind stri
 		targs = f.Indices
 	}
 	if h == nil || call.Ellipsis != token.NoPos {
-		return nil
+		return nil, nil
 	}
 	args := []string{}
 	litArgs := map[int]*ast.FuncLit{}
@@ -1845,7 +1864,7 @@ func inlineBody(path string, caller *ast.FuncDecl, call *ast.CallExpr, kind stri
 		if l, ok := a.(*ast.FuncLit); ok {
 			// a function literal without results and without `return`: its calls inside the callee are spliced below
 			if l.Type.Results != nil && len(l.Type.Results.List) != 0 {
-				return nil
+				return nil, nil
 			}
 			hasRet := false
 			ast.Inspect(l.Body, func(n ast.Node) bool {
@@ -1888,7 +1907,7 @@ func inlineBody(path string, caller *ast.FuncDecl, call *ast.CallExpr, kind stri
 	if localLit != nil {
 		e, err := parser.ParseExprFrom(fset, h.Name+" (closure)", printNode(localLit), 0)
 		if err != nil {
-			return nil
+			return nil, nil
 		}
 		cp := e.(*ast.FuncLit)
 		cands = append(cands, &ast.FuncDecl{Name: ast.NewIdent(h.Name), Type: cp.Type, Body: cp.Body})
@@ -1922,12 +1941,12 @@ func inlineBody(path string, caller *ast.FuncDecl, call *ast.CallExpr, kind stri
 		tren := map[string]string{}
 		if htp := typeParams(hd); targs != nil {
 			if len(targs) != len(htp) {
-				return nil
+				return nil, nil
 			}
 			for q, t := range htp {
 				a, ok := targs[q].(*ast.Ident)
 				if !ok {
-					return nil
+					return nil, nil
 				}
 				if a.Name != t {
 					tren[t] = a.Name
@@ -1993,7 +2012,7 @@ func inlineBody(path string, caller *ast.FuncDecl, call *ast.CallExpr, kind stri
 					return true
 				})
 				if mentioned {
-					return nil
+					return nil, nil
 				}
 			}
 		}
@@ -2011,7 +2030,7 @@ func inlineBody(path string, caller *ast.FuncDecl, call *ast.CallExpr, kind stri
 		if hd.Type.Results != nil {
 			for _, r := range hd.Type.Results.List {
 				if len(r.Names) > 0 {
-					return nil
+					return nil, nil
 				}
 				nres++
 			}
@@ -2019,28 +2038,28 @@ func inlineBody(path string, caller *ast.FuncDecl, call *ast.CallExpr, kind stri
 		switch kind {
 		case "define":
 			if nres != len(lhs) || nres == 0 {
-				return nil
+				return nil, nil
 			}
 		case "return":
 			if nres == 0 {
-				return nil
+				return nil, nil
 			}
 		default:
 			if nres != 0 {
-				return nil
+				return nil, nil
 			}
 		}
 		params := []string{}
 		for _, p := range hd.Type.Params.List {
 			if _, variadic := p.Type.(*ast.Ellipsis); variadic {
-				return nil
+				return nil, nil
 			}
 			for _, n := range p.Names {
 				params = append(params, n.Name)
 			}
 		}
 		if len(params) != len(args) {
-			return nil
+			return nil, nil
 		}
 		ren := map[string]string{}
 		isParam := map[string]bool{}
@@ -2179,7 +2198,7 @@ func inlineBody(path string, caller *ast.FuncDecl, call *ast.CallExpr, kind stri
 				}
 				hd.Body.List = spl(hd.Body.List, false)
 				if calls != 1 || mentions != 1 {
-					return nil
+					return nil, nil
 				}
 			}
 		}
@@ -2199,7 +2218,7 @@ func inlineBody(path string, caller *ast.FuncDecl, call *ast.CallExpr, kind stri
 		if kind == "define" || kind == "return" {
 			r, ok := list[len(list)-1].(*ast.ReturnStmt)
 			if !ok || nret != 1 || len(r.Results) != nres {
-				return nil
+				return nil, nil
 			}
 			resExprs = r.Results
 			list = list[:len(list)-1]
@@ -2208,7 +2227,7 @@ func inlineBody(path string, caller *ast.FuncDecl, call *ast.CallExpr, kind stri
 			if r, ok := list[len(list)-1].(*ast.ReturnStmt); ok && nret == 1 && len(r.Results) == 0 {
 				list = list[:len(list)-1]
 			} else {
-				return nil
+				return nil, nil
 			}
 		}
 		// names
@@ -2318,11 +2337,11 @@ func inlineBody(path string, caller *ast.FuncDecl, call *ast.CallExpr, kind stri
 			return true
 		})
 		if bad {
-			return nil
+			return nil, nil
 		}
 		for c := range clash {
 			if isParam[c] || lits[c] != nil {
-				return nil
+				return nil, nil
 			}
 			name := c + "_"
 			for callerNames[name] {
@@ -2337,7 +2356,7 @@ func inlineBody(path string, caller *ast.FuncDecl, call *ast.CallExpr, kind stri
 				return true
 			})
 			if mentioned {
-				return nil
+				return nil, nil
 			}
 			ren[c] = name
 			callerNames[name] = true
@@ -2389,8 +2408,7 @@ func inlineBody(path string, caller *ast.FuncDecl, call *ast.CallExpr, kind stri
 			}
 			return true
 		})
-		out := append([]ast.Stmt{}, prelude...)
-		out = append(out, holder.List...)
+		out := append([]ast.Stmt{}, holder.List...)
 		renameIn := func(e ast.Expr) {
 			ast.Inspect(e, func(n ast.Node) bool {
 				if i, ok := n.(*ast.Ident); ok {
@@ -2421,9 +2439,9 @@ func inlineBody(path string, caller *ast.FuncDecl, call *ast.CallExpr, kind stri
 		if len(out) == 0 {
 			out = append(out, &ast.EmptyStmt{})
 		}
-		return out
+		return prelude, out
 	}
-	return nil
+	return nil, nil
 }
 
 // Small normalisations inside every function body of fd (the function itself and its literals):
@@ -3680,4 +3698,103 @@ func hoistSharedMake(fd *ast.FuncDecl) {
 		list[k], list[k+1] = list[k+1], is
 		k++
 	}
+}
+
+// `x := y` in any block, with x and y each declared exactly once in the whole function (so nothing shadows them) and
+// never assigned, incremented or address-taken: x is y in the rest of the block (`c := c_` left behind by the binding of
+// an argument to a range variable).
+func propagateBlockCopies(fd *ast.FuncDecl) {
+	defs, writes := map[string]int{}, map[string]int{}
+	fields := func(fl *ast.FieldList) {
+		if fl != nil {
+			for _, f := range fl.List {
+				for _, n := range f.Names {
+					defs[n.Name]++
+				}
+			}
+		}
+	}
+	fields(fd.Type.Params)
+	fields(fd.Type.Results)
+	ast.Inspect(fd.Body, func(n ast.Node) bool {
+		switch y := n.(type) {
+		case *ast.FuncLit:
+			fields(y.Type.Params)
+			fields(y.Type.Results)
+		case *ast.AssignStmt:
+			for _, l := range y.Lhs {
+				if i, ok := l.(*ast.Ident); ok {
+					if y.Tok == token.DEFINE {
+						defs[i.Name]++
+					} else {
+						writes[i.Name]++
+					}
+				}
+			}
+		case *ast.ValueSpec:
+			for _, i := range y.Names {
+				defs[i.Name]++
+			}
+		case *ast.RangeStmt:
+			for _, kv := range []ast.Expr{y.Key, y.Value} {
+				if i, ok := kv.(*ast.Ident); ok {
+					if y.Tok == token.DEFINE {
+						defs[i.Name]++
+					} else {
+						writes[i.Name]++
+					}
+				}
+			}
+		case *ast.IncDecStmt:
+			if i, ok := y.X.(*ast.Ident); ok {
+				writes[i.Name]++
+			}
+		case *ast.UnaryExpr:
+			if i, ok := y.X.(*ast.Ident); ok && y.Op == token.AND {
+				writes[i.Name]++
+			}
+		}
+		return true
+	})
+	var doList func(list []ast.Stmt) []ast.Stmt
+	doList = func(list []ast.Stmt) []ast.Stmt {
+		for k := 0; k < len(list); k++ {
+			as, ok := list[k].(*ast.AssignStmt)
+			if !ok || as.Tok != token.DEFINE || len(as.Lhs) != 1 || len(as.Rhs) != 1 {
+				continue
+			}
+			x, ok1 := as.Lhs[0].(*ast.Ident)
+			y, ok2 := as.Rhs[0].(*ast.Ident)
+			if !ok1 || !ok2 || x.Name == "_" || defs[x.Name] != 1 || defs[y.Name] != 1 || writes[x.Name] != 0 || writes[y.Name] != 0 {
+				continue
+			}
+			rest := &ast.BlockStmt{List: append([]ast.Stmt{}, list[k+1:]...)}
+			protectNonVars(rest)
+			ast.Inspect(rest, func(n ast.Node) bool {
+				if i, ok := n.(*ast.Ident); ok {
+					if strings.HasPrefix(i.Name, "\x00") {
+						i.Name = i.Name[1:]
+					} else if i.Name == x.Name {
+						i.Name = y.Name
+					}
+				}
+				return true
+			})
+			list = append(append([]ast.Stmt{}, list[:k]...), rest.List...)
+			defs[x.Name] = 0
+			k--
+		}
+		return list
+	}
+	ast.Inspect(fd.Body, func(n ast.Node) bool {
+		switch b := n.(type) {
+		case *ast.BlockStmt:
+			b.List = doList(b.List)
+		case *ast.CaseClause:
+			b.Body = doList(b.Body)
+		case *ast.CommClause:
+			b.Body = doList(b.Body)
+		}
+		return true
+	})
 }
